@@ -111,18 +111,31 @@ def rule_fmt(ctx: Ctx) -> RuleResult:
     # increment by exactly one
     incs = [n for n in own_nodes(f.node) if isinstance(n, ast.BinOp) and isinstance(n.op, ast.Add) and isinstance(n.left, ast.Call)
             and dotted(n.left.func) == "int"]
+    num_zero = []
+    if not incs:
+        # the number is computed first (`number = int(..)` per branch, `number = 0` when there is no version), then incremented
+        def numeric(name: str) -> bool:
+            ds = [d for d in flow.all_defs if d.var == name]
+            return bool(ds) and all(d.kind == "assign" and d.value is not None and (
+                (isinstance(d.value, ast.Call) and dotted(d.value.func) == "int") or (isinstance(d.value, ast.Constant) and isinstance(d.value.value, int)
+                                                                                         and not isinstance(d.value.value, bool))) for d in ds)
+        for n in own_nodes(f.node):
+            if isinstance(n, ast.BinOp) and isinstance(n.op, ast.Add) and isinstance(n.left, ast.Name) and numeric(n.left.id) \
+                    and isinstance(n.right, ast.Constant):
+                incs.append(n)
+                num_zero += [d for d in flow.all_defs if d.var == n.left.id and isinstance(d.value, ast.Constant) and d.value.value == 0]
     if incs and all(isinstance(i.right, ast.Constant) and i.right.value == 1 for i in incs):
         res.ok("NextGetter increment", "int(version) + 1")
     else:
         res.violation([NEXT, "increment"], "NextGetter does not increment the version number by exactly one", f.relpath, f.node.lineno)
     # no version -> starts from 0 (first version is 1); '*' / '>' -> the last existing one
     inc_args = set()
-    for i_ in incs:
+    for i_ in [x for x in incs if isinstance(x.left, ast.Call)]:
         for a_ in i_.left.args[:1]:
             inc_args |= {x.id for x in ast.walk(a_) if isinstance(x, ast.Name)}
     zero = [d for d in flow.all_defs if (d.var == "version" or d.var in inc_args) and isinstance(d.value, ast.Constant) and d.value.value == 0] or [
         r for g in family(ctx, f) for r in own_nodes(g.node) if isinstance(r, ast.Return) and isinstance(r.value, ast.Constant) and r.value.value == 0] or [
-        i for i in incs if i.left.args and isinstance(i.left.args[0], ast.Constant) and i.left.args[0].value == 0]
+        i for i in incs if isinstance(i.left, ast.Call) and i.left.args and isinstance(i.left.args[0], ast.Constant) and i.left.args[0].value == 0] or num_zero
     last = [n for g in family(ctx, f) for n in own_nodes(g.node) if isinstance(n, ast.Call) and isinstance(n.func, ast.Attribute)
             and n.func.attr == "get_last"]
     if zero and last:
